@@ -195,7 +195,8 @@ def judge(sc, meaning, data, closed, methods):
         elif methods[0] != b"HEAD" and b != body:
             k = next((j for j in range(min(len(b), len(body))) if b[j] != body[j]), min(len(b), len(body)))
             return "body differs: backend produced %d bytes, client got %d (first difference at %d)" % (len(body), len(b), k)
-        own_page = bool(sc.get("brk")) and st >= 400 and b.startswith(b"<!DOCTYPE html>") and (b"<title>%d " % st) in b and body != b
+        own_page = bool(sc.get("brk")) and st >= 400 and ((b.startswith(b"<!DOCTYPE html>") and (b"<title>%d " % st) in b and body != b) or
+                                                           (methods[0] == b"HEAD" and h.get(b"content-type") == [b"text/html"] and (b"Content-Type", b"text/html") not in hs))
         for k, v in hs:
             if k.lower() in HOP or own_page: continue
             if v not in h.get(k.lower(), []): return "end-to-end header %r: %r sent by the backend is missing or altered (client has %r)" % (k, v, h.get(k.lower()))
